@@ -1,8 +1,1648 @@
-//! C19 — not built yet.
+//! C19 — fleet calls retry only transport failures, boundedly, and recover afterwards; broadcasts
+//! address exactly the nodes carrying all requested tags.
+//!
+//! Stage "retry" (default, also "main"): a scripted FAKE node (raw sockets, frames through oracle.rs)
+//! whose behaviour for the NEXT attempt is set from the verif-hooks probe `fleet.attempt` /
+//! `async_fleet.attempt`. Outcome sequences are enumerated table-driven (all sequences of length
+//! <= max_attempts+2 over an 8-symbol alphabet), each followed by a healthy phase. The verdict comes
+//! from the attempt log (probe hits joined with what the node saw in that attempt), never from
+//! elapsed time; time is only used to *downgrade* a candidate to a re-run.
+//!
+//! Stage "tags": every assignment of tag subsets to <= 4 nodes x every requested tag subset; the
+//! fake nodes count what they received, so "addresses exactly" is judged on the node side too.
+
 use crate::common::*;
+use crate::oracle::{self, SpecHeader};
+use repe::{AsyncFleet, Fleet, FleetOptions, Message, NodeConfig, RemoteResult, RepeError, RetryPolicy};
+use serde_json::{Value, json};
+use std::cell::RefCell;
+use std::collections::{BTreeMap, BTreeSet, HashMap};
+use std::io::{ErrorKind, Read, Write};
+use std::net::{Shutdown, TcpListener, TcpStream};
+use std::os::fd::{AsRawFd, FromRawFd, OwnedFd};
+use std::sync::atomic::{AtomicBool, AtomicU64, AtomicUsize, Ordering};
+use std::sync::{Arc, Mutex, MutexGuard, mpsc};
+use std::time::{Duration, Instant};
+
+const NODE_TIMEOUT: Duration = Duration::from_millis(150);
+const RETRY_DELAY: Duration = Duration::from_millis(5);
+const HEALTHY_CALLS: usize = 5;
+const RECOVERY_WINDOW: usize = 3;
+const NOTICE_WAIT: Duration = Duration::from_millis(1000);
+const NODE_NAME: &str = "n0";
+
+// ------------------------------------------------------------------ outcome alphabet
+
+#[derive(Clone, Copy, PartialEq, Eq, Hash, Debug, PartialOrd, Ord)]
+enum Out {
+    Refused,
+    AcceptClose,
+    IdleNoticed,
+    IdleQuick,
+    Silent,
+    Malformed,
+    AppErr,
+    Success,
+}
+
+const ALPHA: [Out; 8] = [
+    Out::Refused,
+    Out::AcceptClose,
+    Out::IdleNoticed,
+    Out::IdleQuick,
+    Out::Silent,
+    Out::Malformed,
+    Out::AppErr,
+    Out::Success,
+];
+
+impl Out {
+    fn name(self) -> &'static str {
+        match self {
+            Out::Refused => "refused",
+            Out::AcceptClose => "accepted-then-closed",
+            Out::IdleNoticed => "closed-while-idle(noticed)",
+            Out::IdleQuick => "closed-while-idle(quick)",
+            Out::Silent => "silent",
+            Out::Malformed => "malformed",
+            Out::AppErr => "app-error",
+            Out::Success => "success",
+        }
+    }
+    /// name used in signatures (the two closed-while-idle sub-variants share one)
+    fn cause(self) -> &'static str {
+        match self {
+            Out::IdleNoticed | Out::IdleQuick => "closed-while-idle",
+            o => o.name(),
+        }
+    }
+    fn from_name(s: &str) -> Option<Out> {
+        ALPHA.iter().copied().find(|o| o.name() == s)
+    }
+}
+
+// ------------------------------------------------------------------ raw sockets
+
+fn last_err() -> std::io::Error {
+    std::io::Error::last_os_error()
+}
+
+/// A TCP socket bound to 127.0.0.1:`port` (0 = ephemeral) with SO_REUSEPORT; listening or not.
+/// The non-listening one is the node's *placeholder*: it keeps the port reserved while the
+/// listener is closed, so "refused" (RST to SYN) is deterministic and nobody else can grab the port.
+fn mk_socket(port: u16, listen: bool) -> std::io::Result<(OwnedFd, u16)> {
+    unsafe {
+        let fd = libc::socket(libc::AF_INET, libc::SOCK_STREAM | libc::SOCK_CLOEXEC, 0);
+        if fd < 0 {
+            return Err(last_err());
+        }
+        let fd = OwnedFd::from_raw_fd(fd);
+        let one: libc::c_int = 1;
+        let mut opts = vec![libc::SO_REUSEPORT];
+        if listen {
+            opts.push(libc::SO_REUSEADDR);
+        }
+        for opt in opts {
+            if libc::setsockopt(fd.as_raw_fd(), libc::SOL_SOCKET, opt, &one as *const _ as *const libc::c_void, 4) != 0 {
+                return Err(last_err());
+            }
+        }
+        let mut sa: libc::sockaddr_in = std::mem::zeroed();
+        sa.sin_family = libc::AF_INET as libc::sa_family_t;
+        sa.sin_port = port.to_be();
+        sa.sin_addr.s_addr = u32::from_ne_bytes([127, 0, 0, 1]);
+        let len = std::mem::size_of::<libc::sockaddr_in>() as libc::socklen_t;
+        if libc::bind(fd.as_raw_fd(), &sa as *const _ as *const libc::sockaddr, len) != 0 {
+            return Err(last_err());
+        }
+        if listen && libc::listen(fd.as_raw_fd(), 64) != 0 {
+            return Err(last_err());
+        }
+        let mut sb: libc::sockaddr_in = std::mem::zeroed();
+        let mut l2 = len;
+        if libc::getsockname(fd.as_raw_fd(), &mut sb as *mut _ as *mut libc::sockaddr, &mut l2) != 0 {
+            return Err(last_err());
+        }
+        Ok((fd, u16::from_be(sb.sin_port)))
+    }
+}
+
+/// Close with RST (SO_LINGER 0): leaves no TIME_WAIT socket behind on either side.
+fn rst_close(s: TcpStream) {
+    let l = libc::linger { l_onoff: 1, l_linger: 0 };
+    unsafe {
+        libc::setsockopt(
+            s.as_raw_fd(),
+            libc::SOL_SOCKET,
+            libc::SO_LINGER,
+            &l as *const _ as *const libc::c_void,
+            std::mem::size_of::<libc::linger>() as libc::socklen_t,
+        );
+    }
+    drop(s);
+}
+
+// ------------------------------------------------------------------ fake node
+
+#[derive(Clone, Debug, PartialEq)]
+enum Ev {
+    Accepted,
+    Request { id: u64, path: String },
+    RepliedOk,
+    RepliedErr { code: u32 },
+    RepliedGarbage,
+    Ignored,
+    ClosedOnRequest,
+    KilledIdle { noticed: bool, quick: bool },
+    PeerClosed,
+    ListenerClosed,
+    ListenerOpened,
+    BadFrame,
+    WriteFailed,
+}
+
+#[derive(Clone, Debug)]
+struct NodeEv {
+    attempt: usize,
+    conn: u64,
+    ev: Ev,
+}
+
+struct Conn {
+    id: u64,
+    s: TcpStream,
+    buf: Vec<u8>,
+    half_closed: bool,
+    /// the client sent FIN (closed or shut down). The node keeps its side open until the case ends
+    /// (a server that is slow to close): nothing the client can observe depends on it, and closing
+    /// with RST at reset time leaves no TIME_WAIT socket on the client's ephemeral port. Answering
+    /// the FIN with an immediate RST would NOT be neutral: it turns the client's next write error
+    /// from EPIPE into ECONNRESET.
+    peer_closed: bool,
+}
+
+struct NodeInner {
+    name: String,
+    port: u16,
+    _placeholder: OwnedFd,
+    listener: Option<TcpListener>,
+    conns: Vec<Conn>,
+    mode: Out,
+    malformed_kind: u8,
+    cur: usize,
+    log: Vec<NodeEv>,
+    next_conn: u64,
+    harness_err: Option<String>,
+    frames_in: u64,
+}
+
+fn err_code_for(path: &str) -> u32 {
+    // alternate between an application-range code and a protocol-level one
+    if hash_of(&path) & 1 == 0 { 4096 } else { 6 }
+}
+
+fn err_text_for(path: &str) -> String {
+    format!("scripted application error for {path}")
+}
+
+impl NodeInner {
+    fn ev(&mut self, conn: u64, ev: Ev) {
+        let attempt = self.cur;
+        self.log.push(NodeEv { attempt, conn, ev });
+    }
+
+    fn open_listener(&mut self) {
+        if self.listener.is_some() {
+            return;
+        }
+        match mk_socket(self.port, true) {
+            Ok((fd, _)) => {
+                let l = TcpListener::from(fd);
+                if let Err(e) = l.set_nonblocking(true) {
+                    self.harness_err = Some(format!("listener set_nonblocking: {e}"));
+                }
+                self.listener = Some(l);
+                self.ev(0, Ev::ListenerOpened);
+            }
+            Err(e) => self.harness_err = Some(format!("re-listen on port {}: {e}", self.port)),
+        }
+    }
+
+    fn close_listener(&mut self) {
+        if self.listener.take().is_some() {
+            self.ev(0, Ev::ListenerClosed);
+        }
+    }
+
+    /// One non-blocking sweep: accept, read, handle complete request frames per the current mode.
+    fn poll(&mut self) {
+        if let Some(l) = &self.listener {
+            let mut fresh = vec![];
+            loop {
+                match l.accept() {
+                    Ok((s, _)) => fresh.push(s),
+                    Err(e) if e.kind() == ErrorKind::Interrupted => continue,
+                    Err(_) => break,
+                }
+            }
+            for s in fresh {
+                let _ = s.set_nonblocking(true);
+                let _ = s.set_nodelay(true);
+                self.next_conn += 1;
+                let id = self.next_conn;
+                self.conns.push(Conn { id, s, buf: vec![], half_closed: false, peer_closed: false });
+                self.ev(id, Ev::Accepted);
+            }
+        }
+        let conns = std::mem::take(&mut self.conns);
+        for mut c in conns {
+            if c.peer_closed {
+                self.conns.push(c);
+                continue;
+            }
+            let mut eof = false;
+            let mut tmp = [0u8; 4096];
+            loop {
+                match c.s.read(&mut tmp) {
+                    Ok(0) => {
+                        eof = true;
+                        break;
+                    }
+                    Ok(n) => c.buf.extend_from_slice(&tmp[..n]),
+                    Err(e) if e.kind() == ErrorKind::WouldBlock => break,
+                    Err(e) if e.kind() == ErrorKind::Interrupted => continue,
+                    Err(_) => {
+                        eof = true;
+                        break;
+                    }
+                }
+            }
+            let mut keep = true;
+            // complete request frames
+            while keep && !c.half_closed && c.buf.len() >= oracle::HDR {
+                let h = SpecHeader::decode(&c.buf);
+                if !h.consistent() || h.length > (1 << 20) {
+                    self.ev(c.id, Ev::BadFrame);
+                    keep = false;
+                    break;
+                }
+                let total = h.length as usize;
+                if c.buf.len() < total {
+                    break;
+                }
+                let frame: Vec<u8> = c.buf.drain(..total).collect();
+                let q = &frame[oracle::HDR..oracle::HDR + h.query_length as usize];
+                let b = &frame[oracle::HDR + h.query_length as usize..];
+                self.frames_in += 1;
+                keep = self.handle(&mut c, &h, q, b);
+            }
+            if !keep {
+                let _ = c.s.shutdown(Shutdown::Both);
+                drop(c);
+                continue;
+            }
+            if eof {
+                if c.half_closed {
+                    // we sent FIN first and the client answered by closing: it noticed
+                    self.ev(c.id, Ev::KilledIdle { noticed: true, quick: false });
+                    drop(c);
+                } else {
+                    self.ev(c.id, Ev::PeerClosed);
+                    c.peer_closed = true;
+                    self.conns.push(c);
+                }
+                continue;
+            }
+            self.conns.push(c);
+        }
+    }
+
+    /// React to one request frame. Returns false when the connection is to be closed.
+    fn handle(&mut self, c: &mut Conn, h: &SpecHeader, q: &[u8], b: &[u8]) -> bool {
+        let path = String::from_utf8_lossy(q).into_owned();
+        self.ev(c.id, Ev::Request { id: h.id, path: path.clone() });
+        if h.notify != 0 {
+            return true;
+        }
+        let base = SpecHeader { spec: oracle::SPEC, version: 1, id: h.id, query_format: h.query_format, ..Default::default() };
+        let (bytes, ev) = match self.mode {
+            Out::Success | Out::IdleNoticed | Out::IdleQuick => {
+                let body = json!({"node": self.name, "path": path, "body": String::from_utf8_lossy(b), "conn": c.id});
+                (oracle::frame(SpecHeader { body_format: 2, ..base }, q, body.to_string().as_bytes()), Ev::RepliedOk)
+            }
+            Out::AppErr => {
+                let code = err_code_for(&path);
+                (oracle::frame(SpecHeader { body_format: 3, ec: code, ..base }, q, err_text_for(&path).as_bytes()), Ev::RepliedErr { code })
+            }
+            Out::Malformed => {
+                let bytes = match self.malformed_kind {
+                    // a complete, consistent frame that says version 2
+                    1 => oracle::frame(SpecHeader { version: 2, body_format: 2, ..base }, q, b"{\"v\":2}"),
+                    // a valid JSON-typed reply whose body is not JSON
+                    2 => oracle::frame(SpecHeader { body_format: 2, ..base }, q, b"{not json"),
+                    // 48 bytes that are not a REPE header (bad magic)
+                    _ => SpecHeader { spec: 0xDEAD, length: 48, ..base }.encode().to_vec(),
+                };
+                (bytes, Ev::RepliedGarbage)
+            }
+            Out::Silent => {
+                self.ev(c.id, Ev::Ignored);
+                return true;
+            }
+            Out::AcceptClose | Out::Refused => {
+                self.ev(c.id, Ev::ClosedOnRequest);
+                return false;
+            }
+        };
+        match c.s.write_all(&bytes) {
+            Ok(()) => self.ev(c.id, ev),
+            Err(_) => self.ev(c.id, Ev::WriteFailed),
+        }
+        true
+    }
+}
+
+struct FakeNode {
+    inner: Arc<Mutex<NodeInner>>,
+    stop: Arc<AtomicBool>,
+    th: Option<std::thread::JoinHandle<()>>,
+    port: u16,
+}
+
+impl FakeNode {
+    fn start(name: &str) -> Result<FakeNode, String> {
+        let (ph, port) = mk_socket(0, false).map_err(|e| format!("placeholder socket: {e}"))?;
+        let mut inner = NodeInner {
+            name: name.to_string(),
+            port,
+            _placeholder: ph,
+            listener: None,
+            conns: vec![],
+            mode: Out::Success,
+            malformed_kind: 0,
+            cur: usize::MAX,
+            log: vec![],
+            next_conn: 0,
+            harness_err: None,
+            frames_in: 0,
+        };
+        inner.open_listener();
+        if let Some(e) = inner.harness_err.take() {
+            return Err(e);
+        }
+        let inner = Arc::new(Mutex::new(inner));
+        let stop = Arc::new(AtomicBool::new(false));
+        let (i2, s2) = (inner.clone(), stop.clone());
+        let th = std::thread::spawn(move || {
+            while !s2.load(Ordering::Relaxed) {
+                {
+                    let mut g = i2.lock().unwrap_or_else(|e| e.into_inner());
+                    g.poll();
+                }
+                std::thread::sleep(Duration::from_micros(250));
+            }
+        });
+        Ok(FakeNode { inner, stop, th: Some(th), port })
+    }
+
+    fn lock(&self) -> MutexGuard<'_, NodeInner> {
+        self.inner.lock().unwrap_or_else(|e| e.into_inner())
+    }
+
+    /// Forget the previous case: reset every connection, clear the log, listen, serve normally.
+    fn reset(&self, malformed_kind: u8) {
+        let mut g = self.lock();
+        g.poll();
+        for c in std::mem::take(&mut g.conns) {
+            rst_close(c.s);
+        }
+        g.mode = Out::Success;
+        g.malformed_kind = malformed_kind;
+        g.cur = usize::MAX;
+        g.open_listener();
+        g.log.clear();
+    }
+
+    /// Set the behaviour for the attempt that is about to start. Synchronous: when this returns the
+    /// listener is open/closed as scripted and idle connections are dead as scripted.
+    fn set_mode(&self, out: Out, attempt: usize) {
+        let mut g = self.lock();
+        g.poll(); // whatever is still in flight belongs to the previous attempt
+        g.cur = attempt;
+        g.mode = out;
+        if out == Out::Refused {
+            g.close_listener();
+        } else {
+            g.open_listener();
+        }
+        match out {
+            Out::IdleQuick => {
+                let (gone, live): (Vec<Conn>, Vec<Conn>) = std::mem::take(&mut g.conns).into_iter().partition(|c| c.peer_closed);
+                g.conns = gone;
+                for c in live {
+                    let _ = c.s.shutdown(Shutdown::Both);
+                    g.ev(c.id, Ev::KilledIdle { noticed: false, quick: true });
+                }
+            }
+            Out::IdleNoticed => {
+                let mut any = false;
+                for c in g.conns.iter_mut().filter(|c| !c.peer_closed) {
+                    // FIN now; the rest of the close follows once the client reacted (its reader saw
+                    // EOF and shut the socket down) — indistinguishable, for the client, from a full close
+                    let _ = c.s.shutdown(Shutdown::Write);
+                    c.half_closed = true;
+                    any = true;
+                }
+                if any {
+                    let deadline = Instant::now() + NOTICE_WAIT;
+                    loop {
+                        g.poll();
+                        if !g.conns.iter().any(|c| c.half_closed) {
+                            break;
+                        }
+                        if Instant::now() > deadline {
+                            let (dead, live): (Vec<Conn>, Vec<Conn>) = std::mem::take(&mut g.conns).into_iter().partition(|c| c.half_closed);
+                            g.conns = live;
+                            for c in dead {
+                                let _ = c.s.shutdown(Shutdown::Both);
+                                g.ev(c.id, Ev::KilledIdle { noticed: false, quick: false });
+                            }
+                            break;
+                        }
+                        drop(g);
+                        std::thread::sleep(Duration::from_micros(100));
+                        g = self.lock();
+                    }
+                }
+            }
+            _ => {}
+        }
+    }
+
+    fn take_log(&self) -> (Vec<NodeEv>, Option<String>, u64) {
+        let mut g = self.lock();
+        g.poll();
+        let f = g.frames_in;
+        g.frames_in = 0;
+        (std::mem::take(&mut g.log), g.harness_err.take(), f)
+    }
+}
+
+impl Drop for FakeNode {
+    fn drop(&mut self) {
+        self.stop.store(true, Ordering::Relaxed);
+        if let Some(t) = self.th.take() {
+            let _ = t.join();
+        }
+        let mut g = self.lock();
+        for c in std::mem::take(&mut g.conns) {
+            rst_close(c.s);
+        }
+    }
+}
+
+// ------------------------------------------------------------------ probe plumbing
+
+struct AttemptRec {
+    call: usize,
+    lib_idx: u64,
+    scripted: Option<Out>,
+    at: Instant,
+}
+
+struct CtxState {
+    cur_call: usize,
+    attempts: Vec<AttemptRec>,
+}
+
+struct CaseCtx {
+    node: Arc<FakeNode>,
+    script: Vec<Out>,
+    point: &'static str,
+    st: Mutex<CtxState>,
+}
+
+thread_local! {
+    static CTX: RefCell<Option<Arc<CaseCtx>>> = const { RefCell::new(None) };
+}
+
+static PROBE_OUTSIDE: AtomicU64 = AtomicU64::new(0);
+static PROBE_WRONG_POINT: AtomicU64 = AtomicU64::new(0);
+
+fn install_probe() {
+    repe::verif_hooks::set_probe(Some(Arc::new(|point: &'static str, id: u64| {
+        if point != "fleet.attempt" && point != "async_fleet.attempt" {
+            return;
+        }
+        let ctx = CTX.with(|c| c.borrow().clone());
+        let Some(ctx) = ctx else {
+            PROBE_OUTSIDE.fetch_add(1, Ordering::Relaxed);
+            return;
+        };
+        if point != ctx.point {
+            PROBE_WRONG_POINT.fetch_add(1, Ordering::Relaxed);
+        }
+        let (k, scripted) = {
+            let mut st = ctx.st.lock().unwrap_or_else(|e| e.into_inner());
+            let k = st.attempts.len();
+            let scripted = ctx.script.get(k).copied();
+            let call = st.cur_call;
+            st.attempts.push(AttemptRec { call, lib_idx: id, scripted, at: Instant::now() });
+            (k, scripted)
+        };
+        ctx.node.set_mode(scripted.unwrap_or(Out::Success), k);
+    })));
+}
+
+// ------------------------------------------------------------------ the fleets under test
+
+#[derive(Clone, Copy, PartialEq, Eq, Hash, Debug)]
+enum Kind {
+    Sync,
+    Async,
+}
+
+impl Kind {
+    fn name(self) -> &'static str {
+        match self {
+            Kind::Sync => "fleet",
+            Kind::Async => "async_fleet",
+        }
+    }
+    fn point(self) -> &'static str {
+        match self {
+            Kind::Sync => "fleet.attempt",
+            Kind::Async => "async_fleet.attempt",
+        }
+    }
+}
+
+#[derive(Clone, Copy, PartialEq, Eq, Hash, Debug)]
+enum Api {
+    /// call_json(node, path, Some(params))
+    Json,
+    /// call_json(node, path, None)
+    JsonNoParams,
+    /// call_message(node, path)
+    Message,
+}
+
+impl Api {
+    fn name(self) -> &'static str {
+        match self {
+            Api::Json => "call_json",
+            Api::JsonNoParams => "call_json(no params)",
+            Api::Message => "call_message",
+        }
+    }
+    fn from_name(s: &str) -> Api {
+        match s {
+            "call_message" => Api::Message,
+            "call_json(no params)" => Api::JsonNoParams,
+            _ => Api::Json,
+        }
+    }
+}
+
+#[derive(Clone, Debug)]
+enum Res {
+    Value { good: bool, text: String },
+    Server { code: u32, message: String },
+    Io { kind: String, text: String },
+    Other { variant: String, text: String },
+    Fleet(String),
+}
+
+impl Res {
+    fn short(&self) -> String {
+        match self {
+            Res::Value { good: true, .. } => "value(ok)".into(),
+            Res::Value { good: false, .. } => "value(WRONG)".into(),
+            Res::Server { code, .. } => format!("ServerError({code})"),
+            Res::Io { kind, .. } => format!("Io({kind})"),
+            Res::Other { variant, .. } => variant.clone(),
+            Res::Fleet(_) => "FleetError".into(),
+        }
+    }
+    fn long(&self) -> String {
+        match self {
+            Res::Value { good, text } => format!("value(good={good}) {}", trunc(text, 80)),
+            Res::Server { code, message } => format!("ServerError code={code} '{}'", trunc(message, 60)),
+            Res::Io { kind, text } => format!("Io({kind}) '{}'", trunc(text, 70)),
+            Res::Other { variant, text } => format!("{variant} '{}'", trunc(text, 70)),
+            Res::Fleet(t) => format!("FleetError '{}'", trunc(t, 70)),
+        }
+    }
+    fn is_ok(&self) -> bool {
+        matches!(self, Res::Value { good: true, .. })
+    }
+    fn io_kind(&self) -> Option<&str> {
+        match self {
+            Res::Io { kind, .. } => Some(kind),
+            _ => None,
+        }
+    }
+}
+
+fn classify_err(e: &RepeError) -> Res {
+    match e {
+        RepeError::Io(io) => Res::Io { kind: format!("{:?}", io.kind()), text: io.to_string() },
+        RepeError::ServerError { code, message } => Res::Server { code: u32::from(*code), message: message.clone() },
+        other => {
+            let d = format!("{other:?}");
+            let variant = d.split(|c: char| c == '(' || c == '{' || c == ' ').next().unwrap_or("?").to_string();
+            Res::Other { variant, text: other.to_string() }
+        }
+    }
+}
+
+fn good_value(v: &Value, node: &str, path: &str) -> bool {
+    v["node"] == node && v["path"] == path
+}
+
+fn res_of_json(r: RemoteResult<Value>, node: &str, path: &str) -> Res {
+    match (&r.value, &r.error) {
+        (Some(v), None) => Res::Value { good: r.node == node && good_value(v, node, path), text: v.to_string() },
+        (_, Some(e)) => classify_err(e),
+        (None, None) => Res::Other { variant: "EmptyRemoteResult".into(), text: "neither value nor error".into() },
+    }
+}
+
+fn res_of_msg(r: RemoteResult<Message>, node: &str, path: &str) -> Res {
+    match (&r.value, &r.error) {
+        (Some(m), None) => {
+            let sh = SpecHeader::from_repe(&m.header);
+            let v: Value = serde_json::from_slice(&m.body).unwrap_or(Value::Null);
+            let good = r.node == node && sh.ec == 0 && sh.body_format == 2 && m.query == path.as_bytes() && good_value(&v, node, path);
+            Res::Value { good, text: format!("ec={} body={}", sh.ec, String::from_utf8_lossy(&m.body)) }
+        }
+        (_, Some(e)) => classify_err(e),
+        (None, None) => Res::Other { variant: "EmptyRemoteResult".into(), text: "neither value nor error".into() },
+    }
+}
+
+enum AnyFleet {
+    Sync(Fleet),
+    Async(AsyncFleet),
+}
+
+impl AnyFleet {
+    fn call(&self, rt: &tokio::runtime::Runtime, api: Api, node: &str, path: &str, params: &Value) -> Res {
+        match (self, api) {
+            (AnyFleet::Sync(f), Api::Json) => f.call_json(node, path, Some(params)).map(|r| res_of_json(r, node, path)).unwrap_or_else(|e| Res::Fleet(e.to_string())),
+            (AnyFleet::Sync(f), Api::JsonNoParams) => f.call_json(node, path, None).map(|r| res_of_json(r, node, path)).unwrap_or_else(|e| Res::Fleet(e.to_string())),
+            (AnyFleet::Sync(f), Api::Message) => f.call_message(node, path).map(|r| res_of_msg(r, node, path)).unwrap_or_else(|e| Res::Fleet(e.to_string())),
+            (AnyFleet::Async(f), Api::Json) => rt.block_on(f.call_json(node, path, Some(params))).map(|r| res_of_json(r, node, path)).unwrap_or_else(|e| Res::Fleet(e.to_string())),
+            (AnyFleet::Async(f), Api::JsonNoParams) => rt.block_on(f.call_json(node, path, None)).map(|r| res_of_json(r, node, path)).unwrap_or_else(|e| Res::Fleet(e.to_string())),
+            (AnyFleet::Async(f), Api::Message) => rt.block_on(f.call_message(node, path)).map(|r| res_of_msg(r, node, path)).unwrap_or_else(|e| Res::Fleet(e.to_string())),
+        }
+    }
+    fn is_connected(&self, rt: &tokio::runtime::Runtime, node: &str) -> Option<bool> {
+        match self {
+            AnyFleet::Sync(f) => f.is_connected(node).ok(),
+            AnyFleet::Async(f) => rt.block_on(f.is_connected(node)).ok(),
+        }
+    }
+}
+
+fn node_config(name: &str, port: u16, tags: &[&str], timeout: Duration) -> NodeConfig {
+    NodeConfig::new("127.0.0.1", port)
+        .and_then(|c| c.with_name(name))
+        .and_then(|c| c.with_timeout(timeout))
+        .map(|c| c.with_tags(tags.iter().copied()))
+        .expect("node config")
+}
+
+// ------------------------------------------------------------------ one retry case
+
+#[derive(Clone, Debug, Hash, PartialEq, Eq)]
+struct CaseSpec {
+    kind: Kind,
+    m: usize,
+    script: Vec<Out>,
+    api: Api,
+    malformed_kind: u8,
+}
+
+impl CaseSpec {
+    fn replay(&self) -> Value {
+        json!({"part": "retry", "kind": self.kind.name(), "max_attempts": self.m,
+               "script": self.script.iter().map(|o| o.name()).collect::<Vec<_>>(),
+               "api": self.api.name(), "malformed_kind": self.malformed_kind,
+               "node_timeout_ms": NODE_TIMEOUT.as_millis() as u64, "retry_delay_ms": RETRY_DELAY.as_millis() as u64,
+               "healthy_calls": HEALTHY_CALLS})
+    }
+    fn from_replay(v: &Value) -> Option<CaseSpec> {
+        Some(CaseSpec {
+            kind: if v["kind"] == "async_fleet" { Kind::Async } else { Kind::Sync },
+            m: v["max_attempts"].as_u64()? as usize,
+            script: v["script"].as_array()?.iter().map(|s| Out::from_name(s.as_str().unwrap_or(""))).collect::<Option<Vec<_>>>()?,
+            api: Api::from_name(v["api"].as_str().unwrap_or("")),
+            malformed_kind: v["malformed_kind"].as_u64().unwrap_or(0) as u8,
+        })
+    }
+    fn describe(&self) -> String {
+        format!(
+            "{} max_attempts={} {} script=[{}]{}",
+            self.kind.name(),
+            self.m,
+            self.api.name(),
+            self.script.iter().map(|o| o.name()).collect::<Vec<_>>().join(", "),
+            if self.malformed_kind != 0 { format!(" malformed_kind={}", self.malformed_kind) } else { String::new() }
+        )
+    }
+}
+
+struct CallObs {
+    healthy: bool,
+    path: String,
+    res: Res,
+    connected_after: Option<bool>,
+    ended: Instant,
+}
+
+struct CaseRun {
+    spec: CaseSpec,
+    calls: Vec<CallObs>,
+    attempts: Vec<AttemptRec>,
+    node_log: Vec<NodeEv>,
+    frames_in: u64,
+    harness_err: Option<String>,
+}
+
+static TOKEN: AtomicU64 = AtomicU64::new(1);
+
+fn run_case(spec: &CaseSpec, node: &Arc<FakeNode>, rt: &tokio::runtime::Runtime) -> CaseRun {
+    node.reset(spec.malformed_kind);
+    let cfg = node_config(NODE_NAME, node.port, &[], NODE_TIMEOUT);
+    let opts = FleetOptions { default_timeout: NODE_TIMEOUT, retry_policy: RetryPolicy { max_attempts: spec.m, delay: RETRY_DELAY } };
+    let fleet = match spec.kind {
+        Kind::Sync => AnyFleet::Sync(Fleet::with_options(vec![cfg], opts).expect("fleet")),
+        Kind::Async => AnyFleet::Async(AsyncFleet::with_options(vec![cfg], opts).expect("async fleet")),
+    };
+    let ctx = Arc::new(CaseCtx {
+        node: node.clone(),
+        script: spec.script.clone(),
+        point: spec.kind.point(),
+        st: Mutex::new(CtxState { cur_call: 0, attempts: vec![] }),
+    });
+    CTX.with(|c| *c.borrow_mut() = Some(ctx.clone()));
+    let mut calls: Vec<CallObs> = vec![];
+    let one = |healthy: bool, calls: &mut Vec<CallObs>| {
+        let callno = calls.len();
+        ctx.st.lock().unwrap_or_else(|e| e.into_inner()).cur_call = callno;
+        let path = format!("/c19/{}", TOKEN.fetch_add(1, Ordering::Relaxed));
+        let params = json!({"tok": path, "call": callno});
+        let res = fleet.call(rt, spec.api, NODE_NAME, &path, &params);
+        let ended = Instant::now();
+        let connected_after = fleet.is_connected(rt, NODE_NAME);
+        calls.push(CallObs { healthy, path, res, connected_after, ended });
+    };
+    // fault phase: keep calling until every scripted outcome has been consumed by an attempt
+    let consumed = |ctx: &CaseCtx| ctx.st.lock().unwrap_or_else(|e| e.into_inner()).attempts.len();
+    while consumed(&ctx) < spec.script.len() && calls.len() < spec.script.len() + 1 {
+        one(false, &mut calls);
+    }
+    for _ in 0..HEALTHY_CALLS {
+        one(true, &mut calls);
+    }
+    CTX.with(|c| *c.borrow_mut() = None);
+    drop(fleet);
+    let (node_log, harness_err, frames_in) = node.take_log();
+    let attempts = std::mem::take(&mut ctx.st.lock().unwrap_or_else(|e| e.into_inner()).attempts);
+    CaseRun { spec: spec.clone(), calls, attempts, node_log, frames_in, harness_err }
+}
+
+// ------------------------------------------------------------------ the oracle
+
+#[derive(Default, Clone)]
+struct AttClass {
+    requests: u32,
+    accepted: u32,
+    ok: bool,
+    err: Option<u32>,
+    garbage: bool,
+    ignored: bool,
+    closed_on_req: bool,
+    killed_noticed: u32,
+    killed_unnoticed: u32,
+    write_failed: bool,
+    peer_closed: u32,
+}
+
+impl AttClass {
+    fn name(&self) -> &'static str {
+        if self.ok {
+            "replied-ok"
+        } else if self.err.is_some() {
+            "replied-app-error"
+        } else if self.garbage {
+            "malformed-reply"
+        } else if self.ignored {
+            "silent"
+        } else if self.closed_on_req {
+            "closed-on-request"
+        } else if self.requests > 0 {
+            "request-unanswered"
+        } else {
+            "no-request"
+        }
+    }
+    /// node-side activity that shows the client reached the node, or the node acting on a live connection
+    fn contact(&self) -> bool {
+        self.requests > 0 || self.accepted > 0 || self.killed_noticed > 0 || self.killed_unnoticed > 0
+    }
+}
+
+struct Finding {
+    sig: String,
+    detail: String,
+}
+
+#[derive(Default)]
+struct Verdict {
+    findings: Vec<Finding>,
+    suspect: Vec<String>,
+    inconclusive: Vec<String>,
+    stats: BTreeMap<String, u64>,
+    recovered: bool,
+}
+
+fn stat(v: &mut Verdict, k: impl Into<String>) {
+    *v.stats.entry(k.into()).or_insert(0) += 1;
+}
+
+fn render(run: &CaseRun, cls: &[AttClass]) -> String {
+    let mut s = format!("{} | ", run.spec.describe());
+    for (ci, c) in run.calls.iter().enumerate() {
+        let atts: Vec<String> = run
+            .attempts
+            .iter()
+            .enumerate()
+            .filter(|(_, a)| a.call == ci)
+            .map(|(k, a)| {
+                let cl = &cls[k];
+                let mut extra = String::new();
+                if cl.killed_noticed > 0 {
+                    extra.push_str(&format!(", node killed {} idle conn, client's reader noticed", cl.killed_noticed));
+                }
+                if cl.killed_unnoticed > 0 {
+                    extra.push_str(&format!(", node killed {} idle conn", cl.killed_unnoticed));
+                }
+                if cl.accepted > 0 {
+                    extra.push_str(", new connection");
+                }
+                format!("#{}:{}→{}{}", a.lib_idx, a.scripted.map(|o| o.name()).unwrap_or("healthy"), cl.name(), extra)
+            })
+            .collect();
+        s.push_str(&format!(
+            "{}call{} [{}] ⇒ {} is_connected={} ; ",
+            if c.healthy { "HEALTHY-" } else { "" },
+            ci,
+            atts.join(" "),
+            c.res.long(),
+            c.connected_after.map(|b| b.to_string()).unwrap_or("?".into())
+        ));
+    }
+    trunc(&s, 2400)
+}
+
+fn transport_kinds_after_close() -> &'static [&'static str] {
+    &["UnexpectedEof", "ConnectionReset", "ConnectionAborted", "BrokenPipe", "NotConnected"]
+}
+
+fn evaluate(run: &CaseRun, strict: bool) -> Verdict {
+    let mut v = Verdict::default();
+    let kind = run.spec.kind.name();
+    let m = run.spec.m;
+    if let Some(e) = &run.harness_err {
+        v.inconclusive.push(format!("fake node trouble: {e}"));
+        return v;
+    }
+    let n = run.attempts.len();
+    let mut cls = vec![AttClass::default(); n];
+    for e in &run.node_log {
+        if e.attempt >= n {
+            continue;
+        }
+        let c = &mut cls[e.attempt];
+        match &e.ev {
+            Ev::Accepted => c.accepted += 1,
+            Ev::Request { .. } => c.requests += 1,
+            Ev::RepliedOk => c.ok = true,
+            Ev::RepliedErr { code } => c.err = Some(*code),
+            Ev::RepliedGarbage => c.garbage = true,
+            Ev::Ignored => c.ignored = true,
+            Ev::ClosedOnRequest => c.closed_on_req = true,
+            Ev::KilledIdle { noticed: true, .. } => c.killed_noticed += 1,
+            Ev::KilledIdle { noticed: false, .. } => c.killed_unnoticed += 1,
+            Ev::WriteFailed => c.write_failed = true,
+            Ev::PeerClosed => c.peer_closed += 1,
+            Ev::BadFrame => v.inconclusive.push("fake node received an inconsistent request frame".into()),
+            Ev::ListenerClosed | Ev::ListenerOpened => {}
+        }
+    }
+    if !v.inconclusive.is_empty() {
+        return v;
+    }
+    let timeout = NODE_TIMEOUT;
+    // how long attempt k lasted (until the next probe hit or the end of its call)
+    let dur = |k: usize| -> Duration {
+        let a = &run.attempts[k];
+        let end = match run.attempts.get(k + 1) {
+            Some(b) if b.call == a.call => b.at,
+            _ => run.calls[a.call].ended,
+        };
+        end.saturating_duration_since(a.at)
+    };
+    let detail = |what: &str| format!("{what} — {}", render(run, &cls));
+    let cand = |v: &mut Verdict, timing: bool, sig: String, what: &str| {
+        if timing && !strict {
+            v.suspect.push(format!("{sig}: {what}"));
+        } else {
+            v.findings.push(Finding { sig, detail: detail(what) });
+        }
+    };
+
+    for (k, c) in cls.iter().enumerate() {
+        stat(&mut v, format!("attempts_scripted:{}", run.attempts[k].scripted.map(|o| o.name()).unwrap_or("healthy")));
+        stat(&mut v, format!("attempt_class:{}", c.name()));
+        if c.requests > 1 {
+            // a request processed in a later attempt's window: the machine stalled
+            if !strict {
+                v.suspect.push(format!("{} requests reached the node within one attempt window", c.requests));
+            } else {
+                v.inconclusive.push("several requests within one attempt window".into());
+            }
+        }
+        if c.write_failed {
+            v.inconclusive.push("fake node could not write its reply".into());
+        }
+        v.stats.entry("idle_kill_noticed".into()).and_modify(|x| *x += c.killed_noticed as u64).or_insert(c.killed_noticed as u64);
+        v.stats.entry("idle_kill_unnoticed".into()).and_modify(|x| *x += c.killed_unnoticed as u64).or_insert(c.killed_unnoticed as u64);
+    }
+
+    for (ci, call) in run.calls.iter().enumerate() {
+        let ks: Vec<usize> = (0..n).filter(|&k| run.attempts[k].call == ci).collect();
+        stat(&mut v, "calls");
+        if ks.is_empty() {
+            v.inconclusive.push(format!("probe {} never fired during a call (hook not reached)", run.spec.kind.point()));
+            continue;
+        }
+        let t = ks.len();
+        *v.stats.entry("attempts_probed".into()).or_insert(0) += t as u64;
+        for (i, &k) in ks.iter().enumerate() {
+            if run.attempts[k].lib_idx != i as u64 {
+                v.inconclusive.push(format!("attempt indices reported by the probe are not 0,1,2.. (got {} at position {i})", run.attempts[k].lib_idx));
+            }
+        }
+        // (1) bound
+        if t > m {
+            cand(&mut v, false, format!("C19:too-many-attempts:{kind}"), &format!("call {ci} made {t} attempts with max_attempts={m}"));
+        }
+        // (2) an attempt only after a transport-level failure of the previous one
+        for w in ks.windows(2) {
+            let c = &cls[w[0]];
+            let late = dur(w[0]) + Duration::from_millis(10) >= timeout;
+            if c.ok {
+                cand(&mut v, late, format!("C19:retry-after-reply:{kind}:success"), &format!("call {ci}: another attempt was made although the node had answered attempt #{} successfully", run.attempts[w[0]].lib_idx));
+            } else if c.err.is_some() {
+                cand(&mut v, late, format!("C19:retry-after-reply:{kind}:app-error"), &format!("call {ci}: another attempt was made although the node had answered attempt #{} with an application error", run.attempts[w[0]].lib_idx));
+            } else if c.garbage {
+                stat(&mut v, "malformed_reply_then_retried");
+            }
+            stat(&mut v, format!("retried_after:{}", c.name()));
+        }
+        // evidence: what an attempt on a connection the node had just killed turned into
+        for (i, &k) in ks.iter().enumerate() {
+            let c = &cls[k];
+            if c.killed_noticed + c.killed_unnoticed > 0 {
+                let how = if c.killed_noticed > 0 { "noticed" } else { "not-noticed-by-handshake" };
+                let then = if i + 1 < t { "retried".to_string() } else { call.res.short() };
+                stat(&mut v, format!("attempt_on_killed_idle_conn({how})→{then}"));
+            }
+        }
+        // (3) the reported result is the reply, else the last transport error
+        let last = &cls[*ks.last().unwrap()];
+        let last_late = dur(*ks.last().unwrap()) + Duration::from_millis(10) >= timeout;
+        stat(&mut v, format!("result:{}→{}", last.name(), call.res.short()));
+        if t < m && !last.ok && last.err.is_none() {
+            stat(&mut v, format!("gave_up_with_attempts_left:{}→{}", last.name(), call.res.short()));
+            if last.garbage {
+                stat(&mut v, "malformed_reply_not_retried");
+            }
+        }
+        let timed_out = call.res.io_kind() == Some("TimedOut");
+        if last.ok {
+            if !call.res.is_ok() {
+                cand(&mut v, timed_out && last_late, format!("C19:reply-not-reported:{kind}:success"), &format!("call {ci}: the node answered the last attempt successfully but the call reported {}", call.res.long()));
+            }
+        } else if let Some(code) = last.err {
+            let want_msg = err_text_for(&call.path);
+            let okay = matches!(&call.res, Res::Server { code: c2, message } if (*c2 == code || (code != 4096 && code != 6)) && *message == want_msg);
+            if !okay {
+                cand(&mut v, timed_out && last_late, format!("C19:reply-not-reported:{kind}:app-error"), &format!("call {ci}: the node answered the last attempt with application error {code} '{want_msg}' but the call reported {}", call.res.long()));
+            }
+        } else if last.garbage {
+            // what a malformed reply turns into is not pinned; it must not be a *server* error
+            if let Res::Server { .. } = call.res {
+                cand(&mut v, false, format!("C19:server-error-without-reply:{kind}"), &format!("call {ci} reported a server error but the node sent no error reply"));
+            }
+        } else {
+            match &call.res {
+                Res::Value { .. } => cand(&mut v, false, format!("C19:value-without-reply:{kind}"), &format!("call {ci} reported a value but the node sent no reply in its last attempt")),
+                Res::Server { .. } => cand(&mut v, false, format!("C19:server-error-without-reply:{kind}"), &format!("call {ci} reported a server error but the node sent no error reply")),
+                Res::Fleet(e) => v.inconclusive.push(format!("FleetError from a call: {e}")),
+                res => {
+                    // the LAST transport error: its kind must fit what the last attempt ran into
+                    let k = res.io_kind();
+                    let fits = if last.ignored {
+                        k == Some("TimedOut")
+                    } else if last.closed_on_req {
+                        k.map(|k| transport_kinds_after_close().contains(&k)).unwrap_or(false)
+                    } else if last.requests == 0 && t > 1 && run.attempts[*ks.last().unwrap()].scripted == Some(Out::Refused) && last.killed_noticed + last.killed_unnoticed == 0 {
+                        // a retry (client was discarded) against a port that is not listening
+                        k == Some("ConnectionRefused")
+                    } else {
+                        k.is_some()
+                    };
+                    if !fits {
+                        // a timeout where the node did react: the reaction may simply have come late
+                        // (machine stall) — re-run before judging
+                        cand(&mut v, timed_out && last_late, format!("C19:wrong-error-reported:{kind}:{}", last.name()), &format!("call {ci}: the last attempt ended as '{}' but the call reported {}", last.name(), res.long()));
+                    }
+                }
+            }
+        }
+        if !call.res.is_ok() {
+            stat(&mut v, format!("is_connected_after_failed_call:{}", call.connected_after.map(|b| b.to_string()).unwrap_or("?".into())));
+        }
+    }
+
+    // (4) recovery as bounded progress over the healthy phase
+    let healthy: Vec<(usize, &CallObs)> = run.calls.iter().enumerate().filter(|(_, c)| c.healthy).collect();
+    let first_ok = healthy.iter().position(|(_, c)| c.res.is_ok());
+    // the attempt where the client last reached the node / the node last acted on a live connection
+    let last_contact = (0..n).rev().find(|&k| cls[k].contact());
+    let cause = match last_contact {
+        Some(k) => run.attempts[k].scripted.map(|o| o.cause()).unwrap_or("healthy"),
+        None => "nothing",
+    };
+    let healthy_reqs: u32 = (0..n).filter(|&k| run.calls[run.attempts[k].call].healthy).map(|k| cls[k].requests).sum();
+    let all_fail_timeouts = healthy.iter().all(|(_, c)| c.res.is_ok() || c.res.io_kind() == Some("TimedOut"));
+    match first_ok {
+        Some(i) if i < RECOVERY_WINDOW => {
+            v.recovered = true;
+            stat(&mut v, format!("recovered_at_healthy_call:{i}"));
+            for (ci, c) in healthy.iter().skip(i + 1) {
+                if !c.res.is_ok() {
+                    cand(&mut v, c.res.io_kind() == Some("TimedOut"), format!("C19:relapse:{kind}:{}", c.res.short()), &format!("healthy-phase call {ci} failed after an earlier healthy call had succeeded"));
+                }
+            }
+        }
+        _ => {
+            stat(&mut v, format!("wedged_after:{cause}"));
+            let what = format!(
+                "node wedged: reachable and answering, yet {} of {} healthy-phase calls succeeded (first success: {}); the client last reached the node in the attempt scripted '{}'; during the healthy phase the node received {} request(s)",
+                healthy.iter().filter(|(_, c)| c.res.is_ok()).count(),
+                healthy.len(),
+                first_ok.map(|i| format!("healthy call {i}")).unwrap_or("never".into()),
+                cause,
+                healthy_reqs
+            );
+            cand(&mut v, all_fail_timeouts && healthy_reqs > 0, format!("C19:wedged:{kind}:{cause}"), &what);
+        }
+    }
+    v
+}
+
+// ------------------------------------------------------------------ retry stage driver
+
+fn sequences(len: usize) -> impl Iterator<Item = Vec<Out>> {
+    let total = ALPHA.len().pow(len as u32);
+    (0..total).map(move |mut i| {
+        let mut s = vec![Out::Success; len];
+        for p in (0..len).rev() {
+            s[p] = ALPHA[i % ALPHA.len()];
+            i /= ALPHA.len();
+        }
+        s
+    })
+}
+
+fn build_cases(args: &Args) -> (Vec<CaseSpec>, Value) {
+    let mut cases = vec![];
+    let ms: &[usize] = if args.thorough() { &[1, 2, 3] } else { &[1, 2] };
+    let maxlen = ms.iter().max().unwrap() + 2;
+    // ascending length so the first witness of a signature is a short one
+    for len in 1..=maxlen {
+        for &m in ms {
+            if len > m + 2 {
+                continue;
+            }
+            for script in sequences(len) {
+                for kind in [Kind::Sync, Kind::Async] {
+                    cases.push(CaseSpec { kind, m, script: script.clone(), api: Api::Json, malformed_kind: 0 });
+                }
+            }
+        }
+    }
+    let exhaustive_n = cases.len();
+    // seeded samples: the part of the quantifier not enumerated in this tier, other entry points,
+    // other kinds of malformed reply
+    let mut rng = Rng::new(args.seed ^ 0xC19);
+    let mut sampled = 0;
+    if !args.thorough() {
+        for _ in 0..args.budget(500, 0) {
+            let len = 3 + rng.usize_below(3);
+            let script: Vec<Out> = (0..len).map(|_| *rng.pick(&ALPHA)).collect();
+            let kind = if rng.coin() { Kind::Sync } else { Kind::Async };
+            cases.push(CaseSpec { kind, m: 3, script, api: Api::Json, malformed_kind: 0 });
+            sampled += 1;
+        }
+    }
+    for _ in 0..args.budget(300, 6000) {
+        let m = 1 + rng.usize_below(3);
+        let len = 1 + rng.usize_below(m + 2);
+        let script: Vec<Out> = (0..len).map(|_| *rng.pick(&ALPHA)).collect();
+        let kind = if rng.coin() { Kind::Sync } else { Kind::Async };
+        let api = *rng.pick(&[Api::JsonNoParams, Api::Message, Api::Json]);
+        let malformed_kind = if api == Api::Json { 1 + rng.below(2) as u8 } else { rng.below(3) as u8 };
+        cases.push(CaseSpec { kind, m, script, api, malformed_kind });
+        sampled += 1;
+    }
+    let space = json!({
+        "alphabet": ALPHA.iter().map(|o| o.name()).collect::<Vec<_>>(),
+        "exhaustive_subspace": format!("every sequence of length 1..=max_attempts+2 over the {}-symbol alphabet for max_attempts in {:?}, for Fleet and AsyncFleet, entry point call_json(params), malformed reply = bad magic", ALPHA.len(), ms),
+        "exhaustive_cases": exhaustive_n,
+        "sampled_cases": sampled,
+    });
+    (cases, space)
+}
+
+struct CaseDone {
+    idx: usize,
+    spec: CaseSpec,
+    verdict: Verdict,
+    reruns: u32,
+    frames_in: u64,
+    node_events: u64,
+    sample: Option<Value>,
+}
+
+fn worker_runtime() -> tokio::runtime::Runtime {
+    tokio::runtime::Builder::new_multi_thread().worker_threads(1).enable_all().build().expect("runtime")
+}
+
+/// Run one case to a verdict; timing-suspect executions are re-run, never judged.
+fn judge_case(spec: &CaseSpec, node: &Arc<FakeNode>, rt: &tokio::runtime::Runtime, hb: &Heartbeat) -> (Verdict, CaseRun, u32) {
+    let mut reruns = 0;
+    loop {
+        hb.reset();
+        let run = run_case(spec, node, rt);
+        let v = evaluate(&run, false);
+        let troubled = !v.suspect.is_empty() || !v.inconclusive.is_empty();
+        if !troubled {
+            return (v, run, reruns);
+        }
+        if reruns < 2 {
+            reruns += 1;
+            continue;
+        }
+        // three executions in a row looked the same: judge strictly unless the machine stalled
+        if hb.max_gap_ms() < 100 && v.inconclusive.is_empty() {
+            return (evaluate(&run, true), run, reruns);
+        }
+        let mut v = v;
+        let s = std::mem::take(&mut v.suspect);
+        v.inconclusive.extend(s.into_iter().map(|x| format!("timing-suspect execution persisted (machine stall {} ms): {x}", hb.max_gap_ms())));
+        return (v, run, reruns);
+    }
+}
+
+fn run_retry(args: &Args) -> Report {
+    let mut rep = Report::new(
+        args,
+        "c19-retry",
+        "scripted fake node; per-attempt outcome set from the fleet.attempt/async_fleet.attempt probe; alphabet {refused, \
+         accepted-then-closed, closed-while-idle(noticed|quick), silent, malformed, app-error, success}; every sequence of \
+         length <= max_attempts+2 (thorough: max_attempts 1..3; quick: 1..2 + seeded sample of 3) x {Fleet, AsyncFleet}, then 5 \
+         healthy calls; oracle on the attempt log: attempts <= max, no attempt after a reply, result = the reply else a \
+         transport error fitting the last attempt, within 3 healthy calls one succeeds and all later ones do; distinct = \
+         (fleet kind, max_attempts, script, entry point, malformed kind) of cases containing a fault",
+    );
+    rep.max_samples = 8;
+    install_probe();
+    // replay of one recorded scenario
+    if let Some(path) = &args.replay {
+        let sc = std::fs::read_to_string(path).ok().and_then(|s| serde_json::from_str::<Value>(&s).ok());
+        let spec = sc.as_ref().and_then(|v| CaseSpec::from_replay(if v["scenario"].is_object() { &v["scenario"] } else { v }));
+        match spec {
+            Some(spec) => {
+                let node = Arc::new(FakeNode::start(NODE_NAME).expect("fake node"));
+                let rt = worker_runtime();
+                let hb = Heartbeat::start();
+                for _ in 0..3 {
+                    let (v, run, _) = judge_case(&spec, &node, &rt, &hb);
+                    rep.eval();
+                    rep.distinct(&spec);
+                    rep.sample(json!({"case": spec.describe(), "calls": run.calls.iter().map(|c| c.res.long()).collect::<Vec<_>>()}));
+                    for f in v.findings {
+                        rep.violation(f.sig, f.detail, spec.replay());
+                    }
+                    for i in v.inconclusive {
+                        rep.inconclusive(i);
+                    }
+                }
+            }
+            None => rep.inconclusive("replay file holds no retry scenario"),
+        }
+        repe::verif_hooks::set_probe(None);
+        return rep;
+    }
+
+    let (cases, space) = build_cases(args);
+    let cases = Arc::new(cases);
+    let total = cases.len();
+    let next = Arc::new(AtomicUsize::new(0));
+    let stop = Arc::new(AtomicBool::new(false));
+    let deadline = Instant::now() + Duration::from_secs(if args.thorough() { 450 } else { 40 });
+    let workers = if args.thorough() { 40 } else { 48 };
+    let (tx, rx) = mpsc::channel::<Result<CaseDone, String>>();
+    let ports: Arc<Mutex<Vec<u16>>> = Arc::new(Mutex::new(vec![]));
+    let main_hb = Heartbeat::start();
+    let mut handles = vec![];
+    for wid in 0..workers {
+        let (cases, next, stop, tx, ports) = (cases.clone(), next.clone(), stop.clone(), tx.clone(), ports.clone());
+        handles.push(std::thread::spawn(move || {
+            let node = match FakeNode::start(NODE_NAME) {
+                Ok(n) => Arc::new(n),
+                Err(e) => {
+                    let _ = tx.send(Err(format!("worker {wid}: {e}")));
+                    return;
+                }
+            };
+            ports.lock().unwrap_or_else(|e| e.into_inner()).push(node.port);
+            let rt = worker_runtime();
+            let hb = Heartbeat::start();
+            loop {
+                if stop.load(Ordering::Relaxed) || Instant::now() > deadline {
+                    break;
+                }
+                let idx = next.fetch_add(1, Ordering::Relaxed);
+                if idx >= cases.len() {
+                    break;
+                }
+                let spec = &cases[idx];
+                let (verdict, run, reruns) = judge_case(spec, &node, &rt, &hb);
+                let sample = if idx % 997 == 5 || !verdict.findings.is_empty() {
+                    Some(json!({"case": spec.describe(),
+                        "calls": run.calls.iter().map(|c| format!("{}{}", if c.healthy {"healthy:"} else {""}, c.res.short())).collect::<Vec<_>>(),
+                        "attempts": run.attempts.len(), "node_events": run.node_log.len()}))
+                } else {
+                    None
+                };
+                let done = CaseDone { idx, spec: spec.clone(), verdict, reruns, frames_in: run.frames_in, node_events: run.node_log.len() as u64, sample };
+                if tx.send(Ok(done)).is_err() {
+                    break;
+                }
+            }
+        }));
+    }
+    drop(tx);
+
+    // aggregate; keep the shortest witness per signature
+    let mut best: HashMap<String, (usize, String, Value)> = HashMap::new();
+    let mut suppressed = 0u64;
+    let mut done_n = 0usize;
+    let mut viol_samples = 0;
+    let mut stats: BTreeMap<String, u64> = BTreeMap::new();
+    let mut incon: BTreeMap<String, u64> = BTreeMap::new();
+    for msg in rx {
+        let d = match msg {
+            Ok(d) => d,
+            Err(e) => {
+                rep.inconclusive(format!("harness: {e}"));
+                continue;
+            }
+        };
+        done_n += 1;
+        rep.eval();
+        if d.spec.script.iter().any(|o| *o != Out::Success) {
+            rep.distinct(&d.spec);
+        }
+        rep.count("cases", 1);
+        rep.count(&format!("cases:{}", d.spec.kind.name()), 1);
+        rep.count("case_reruns_timing_suspect", d.reruns as u64);
+        rep.count("node_request_frames_parsed", d.frames_in);
+        rep.count("node_events", d.node_events);
+        if d.verdict.recovered {
+            rep.count("cases_recovered", 1);
+        }
+        for (k, n) in &d.verdict.stats {
+            *stats.entry(k.clone()).or_insert(0) += n;
+        }
+        if let Some(s) = d.sample {
+            let is_v = !d.verdict.findings.is_empty();
+            if !is_v || viol_samples < 3 {
+                rep.sample(s);
+                viol_samples += is_v as usize;
+            }
+        }
+        for i in d.verdict.inconclusive {
+            *incon.entry(i).or_insert(0) += 1;
+        }
+        let weight = d.spec.script.len() * 1000 + d.spec.script.iter().filter(|o| **o != Out::Success).count() * 100 + d.spec.m * 10 + (d.spec.kind == Kind::Async) as usize;
+        for f in d.verdict.findings {
+            match best.get(&f.sig) {
+                Some((w, _, _)) if *w <= weight => suppressed += 1,
+                other => {
+                    if other.is_some() {
+                        suppressed += 1;
+                    }
+                    best.insert(f.sig, (weight, f.detail, d.spec.replay()));
+                }
+            }
+        }
+    }
+    for h in handles {
+        let _ = h.join();
+    }
+    repe::verif_hooks::set_probe(None);
+
+    let mut sigs: Vec<_> = best.into_iter().collect();
+    sigs.sort_by(|a, b| a.0.cmp(&b.0));
+    for (sig, (_, detail, replay)) in sigs {
+        rep.violation(sig, detail, replay);
+    }
+    rep.suppressed_violations += suppressed;
+    for (k, n) in &stats {
+        rep.count(k, *n);
+    }
+    for (i, n) in incon {
+        rep.inconclusive(format!("{i} (x{n})"));
+    }
+    rep.set("space", space);
+    rep.set("cases_planned", json!(total));
+    rep.set("workers", json!(workers));
+    rep.set("fake_node_ports", json!(*ports.lock().unwrap_or_else(|e| e.into_inner())));
+    rep.set("machine_stall_max_ms", json!(main_hb.max_gap_ms()));
+    rep.set("probe_hits_outside_any_case", json!(PROBE_OUTSIDE.load(Ordering::Relaxed)));
+    if PROBE_WRONG_POINT.load(Ordering::Relaxed) > 0 {
+        rep.inconclusive("a fleet fired the other fleet kind's probe point");
+    }
+    let complete = done_n == total;
+    rep.exhaustive = Some(complete && args.thorough());
+    rep.set("enumerated_subspace_complete", json!(complete));
+    if !complete {
+        rep.inconclusive(format!("stopped at the wall-clock budget after {done_n} of {total} cases"));
+    }
+    let retries: u64 = stats.iter().filter(|(k, _)| k.starts_with("retried_after:")).map(|(_, n)| *n).sum();
+    if retries == 0 && done_n > 0 {
+        rep.inconclusive("no retry was ever observed: the retry path was not exercised");
+    }
+    if done_n == 0 {
+        rep.inconclusive("no case ran");
+    }
+    rep
+}
+
+// ------------------------------------------------------------------ tags / broadcast stage
+
+fn subsets<'a>(u: &[&'a str]) -> Vec<Vec<&'a str>> {
+    (0..1usize << u.len()).map(|mask| u.iter().enumerate().filter(|(i, _)| mask >> i & 1 == 1).map(|(_, t)| *t).collect()).collect()
+}
+
+struct TagCfg {
+    /// tag set per node (index into the worker's fake nodes)
+    tags: Vec<Vec<&'static str>>,
+    /// every subset of the universe the tags were drawn from, plus an unknown tag
+    queries: Arc<Vec<Vec<&'static str>>>,
+}
+
+fn tag_configs(universe: &[&'static str], max_nodes: usize) -> Vec<TagCfg> {
+    let subs = subsets(universe);
+    let mut qu = universe.to_vec();
+    qu.push("zz"); // a tag no node carries
+    let queries = Arc::new(subsets(&qu));
+    let mut out = vec![];
+    for n in 1..=max_nodes {
+        let total = subs.len().pow(n as u32);
+        for mut i in 0..total {
+            let mut tags = vec![];
+            for _ in 0..n {
+                tags.push(subs[i % subs.len()].clone());
+                i /= subs.len();
+            }
+            out.push(TagCfg { tags, queries: queries.clone() });
+        }
+    }
+    out
+}
+
+#[derive(Default)]
+struct TagOut {
+    evals: u64,
+    broadcasts: u64,
+    results_checked: u64,
+    node_requests: u64,
+    down_node_cases: u64,
+    findings: Vec<(String, String, Value)>,
+    inconclusive: Vec<String>,
+    distinct: Vec<u64>,
+}
+
+fn drain_paths(node: &FakeNode) -> Vec<String> {
+    let (log, _, _) = node.take_log();
+    log.into_iter().filter_map(|e| if let Ev::Request { path, .. } = e.ev { Some(path) } else { None }).collect()
+}
+
+fn run_tag_config(kind: Kind, cfg: &TagCfg, cfg_idx: usize, nodes: &[Arc<FakeNode>], rt: &tokio::runtime::Runtime, out: &mut TagOut) {
+    let n = cfg.tags.len();
+    let names: Vec<String> = (0..n).map(|i| format!("node{i}")).collect();
+    let timeout = Duration::from_secs(5);
+    let cfgs: Vec<NodeConfig> = (0..n).map(|i| node_config(&names[i], nodes[i].port, &cfg.tags[i], timeout)).collect();
+    let opts = FleetOptions { default_timeout: timeout, retry_policy: RetryPolicy { max_attempts: 1, delay: Duration::from_millis(1) } };
+    let fleet = match kind {
+        Kind::Sync => AnyFleet::Sync(Fleet::with_options(cfgs, opts).expect("fleet")),
+        Kind::Async => AnyFleet::Async(AsyncFleet::with_options(cfgs, opts).expect("fleet")),
+    };
+    for nd in nodes {
+        nd.reset(0);
+    }
+    let k = kind.name();
+    // one extra pass with a node down (refused): its result must still be there, as an error
+    let down: Option<usize> = if cfg_idx % 8 == 3 { Some(cfg_idx / 8 % n) } else { None };
+    let passes: Vec<(Vec<&'static str>, Option<usize>)> = cfg.queries.iter().cloned().map(|q| (q, None)).chain(down.map(|d| (vec![], Some(d)))).collect();
+    for (qi, (q, down)) in passes.iter().enumerate() {
+        let expected: BTreeSet<usize> = (0..n).filter(|&i| q.iter().all(|t| cfg.tags[i].contains(t))).collect();
+        let path = format!("/c19b/{}", TOKEN.fetch_add(1, Ordering::Relaxed));
+        let params = json!({"tok": path});
+        let with_params = qi % 2 == 0;
+        let reduce = qi % 3 == 1;
+        if let Some(d) = down {
+            nodes[*d].set_mode(Out::Refused, 0);
+            out.down_node_cases += 1;
+        }
+        let p = if with_params { Some(&params) } else { None };
+        // the result list as (node name, Res)
+        let results: Vec<(String, Res)> = match (&fleet, reduce) {
+            (AnyFleet::Sync(f), false) => f.broadcast_json(&path, p, q).into_iter().map(|(name, r)| { let nm = r.node.clone(); (name, res_of_json(r, &nm, &path)) }).collect(),
+            (AnyFleet::Sync(f), true) => f.map_reduce_json(&path, p, q, |rs| rs.into_iter().map(|r| { let nm = r.node.clone(); (nm.clone(), res_of_json(r, &nm, &path)) }).collect()),
+            (AnyFleet::Async(f), false) => rt.block_on(f.broadcast_json(&path, p, q)).into_iter().map(|(name, r)| { let nm = r.node.clone(); (name, res_of_json(r, &nm, &path)) }).collect(),
+            (AnyFleet::Async(f), true) => rt.block_on(f.map_reduce_json(&path, p, q, |rs| rs.into_iter().map(|r| { let nm = r.node.clone(); (nm.clone(), res_of_json(r, &nm, &path)) }).collect())),
+        };
+        let filtered: BTreeSet<String> = match &fleet {
+            AnyFleet::Sync(f) => f.filter_nodes(q).into_iter().map(|n| n.name).collect(),
+            AnyFleet::Async(f) => rt.block_on(f.filter_nodes(q)).into_iter().map(|n| n.name).collect(),
+        };
+        if let Some(d) = down {
+            nodes[*d].set_mode(Out::Success, 0);
+        }
+        out.evals += 1;
+        out.broadcasts += 1;
+        out.distinct.push(hash_of(&(k, &cfg.tags, q, down, reduce)));
+        let scenario = json!({"part": "tags", "kind": k, "node_tags": cfg.tags, "requested": q, "down_node": down, "via": if reduce {"map_reduce_json"} else {"broadcast_json"}});
+        let ctx = format!("{k} {} nodes tags={:?} requested={:?} down={:?} via {}", n, cfg.tags, q, down, if reduce { "map_reduce_json" } else { "broadcast_json" });
+        let want_names: BTreeSet<String> = expected.iter().map(|&i| names[i].clone()).collect();
+        let got_names: BTreeSet<String> = results.iter().map(|(n, _)| n.clone()).collect();
+        if results.len() != got_names.len() || results.len() != want_names.len() && got_names == want_names {
+            out.findings.push((format!("C19:broadcast-result-count:{k}"), format!("{} results for {} addressed nodes — {ctx}; got {:?}", results.len(), want_names.len(), results.iter().map(|(n, r)| format!("{n}:{}", r.short())).collect::<Vec<_>>()), scenario.clone()));
+        }
+        if let Some(x) = got_names.difference(&want_names).next() {
+            out.findings.push((format!("C19:broadcast-addressed-extra:{k}"), format!("result from {x} which does not carry all requested tags — {ctx}"), scenario.clone()));
+        }
+        if let Some(x) = want_names.difference(&got_names).next() {
+            out.findings.push((format!("C19:broadcast-missed-node:{k}"), format!("no result for {x} which carries all requested tags — {ctx}"), scenario.clone()));
+        }
+        if filtered != want_names {
+            out.findings.push((format!("C19:filter-nodes:{k}"), format!("filter_nodes returned {filtered:?}, expected {want_names:?} — {ctx}"), scenario.clone()));
+        }
+        for (name, r) in &results {
+            out.results_checked += 1;
+            let idx = names.iter().position(|x| x == name);
+            let is_down = idx.is_some() && idx == *down;
+            if is_down {
+                if !matches!(r, Res::Io { .. }) {
+                    out.findings.push((format!("C19:broadcast-wrong-result:{k}:down-node"), format!("node {name} was down (refused) but its result is {} — {ctx}", r.long()), scenario.clone()));
+                }
+            } else if !r.is_ok() {
+                if r.io_kind() == Some("TimedOut") {
+                    out.inconclusive.push(format!("a healthy broadcast target timed out after 5 s ({ctx})"));
+                } else {
+                    out.findings.push((format!("C19:broadcast-wrong-result:{k}"), format!("result of {name} is {} instead of that node's own reply to this broadcast — {ctx}", r.long()), scenario.clone()));
+                }
+            }
+        }
+        // node side: exactly the addressed nodes received exactly one request carrying this token
+        for i in 0..nodes.len() {
+            let got = drain_paths(&nodes[i]).into_iter().filter(|p| *p == path).count();
+            out.node_requests += got as u64;
+            let want = (i < n && expected.contains(&i)) as usize;
+            // the node that is down may still see the request on a connection cached earlier (it then closes it)
+            if got != want && !(Some(i) == *down && got == 0) {
+                let sig = if want == 0 { format!("C19:broadcast-sent-to-unaddressed:{k}") } else { format!("C19:broadcast-request-count:{k}") };
+                out.findings.push((sig, format!("fake node {i} received {got} request(s) for this broadcast, expected {want} — {ctx}"), scenario.clone()));
+            }
+        }
+    }
+}
+
+fn run_tags(args: &Args) -> Report {
+    let mut rep = Report::new(
+        args,
+        "c19-tags",
+        "every assignment of tag subsets (universe of 2 tags quick / 3 tags thorough) to 1..=4 fake nodes x every requested \
+         subset of the universe plus an unknown tag, through broadcast_json and map_reduce_json (with and without params) and \
+         filter_nodes, for Fleet and AsyncFleet; plus passes with one node down; oracle: result names = nodes carrying ALL \
+         requested tags, one result each holding that node's own reply, and on the node side exactly one request at each \
+         addressed node and none elsewhere; distinct = (kind, node tag sets, requested set, down node, entry point)",
+    );
+    install_probe(); // only counts: fleet.attempt fires on broadcast threads that carry no case
+    let (cfgs, space) = if args.thorough() {
+        (tag_configs(&["a", "b", "c"], 4), "all 4680 assignments of subsets of {a,b,c} to 1..=4 nodes x all 16 subsets of {a,b,c,zz}")
+    } else {
+        let mut c = tag_configs(&["a", "b"], 4);
+        c.extend(tag_configs(&["a", "b", "c"], 3));
+        (c, "all 340 assignments of subsets of {a,b} to 1..=4 nodes x all 8 subsets of {a,b,zz}, and all 584 assignments of subsets of {a,b,c} to 1..=3 nodes x all 16 subsets of {a,b,c,zz}")
+    };
+    let cfgs = Arc::new(cfgs);
+    let total = cfgs.len() * 2;
+    let next = Arc::new(AtomicUsize::new(0));
+    let deadline = Instant::now() + Duration::from_secs(if args.thorough() { 300 } else { 35 });
+    let workers = if args.thorough() { 12 } else { 6 };
+    let (tx, rx) = mpsc::channel::<TagOut>();
+    let mut handles = vec![];
+    for _ in 0..workers {
+        let (cfgs, next, tx) = (cfgs.clone(), next.clone(), tx.clone());
+        handles.push(std::thread::spawn(move || {
+            let mut out = TagOut::default();
+            let nodes: Vec<Arc<FakeNode>> = match (0..4).map(|i| FakeNode::start(&format!("node{i}")).map(Arc::new)).collect::<Result<Vec<_>, _>>() {
+                Ok(n) => n,
+                Err(e) => {
+                    out.inconclusive.push(format!("harness: {e}"));
+                    let _ = tx.send(out);
+                    return;
+                }
+            };
+            let rt = tokio::runtime::Builder::new_multi_thread().worker_threads(2).enable_all().build().expect("runtime");
+            loop {
+                let idx = next.fetch_add(1, Ordering::Relaxed);
+                if idx >= cfgs.len() * 2 || Instant::now() > deadline {
+                    break;
+                }
+                let kind = if idx % 2 == 0 { Kind::Sync } else { Kind::Async };
+                run_tag_config(kind, &cfgs[idx / 2], idx / 2, &nodes, &rt, &mut out);
+                if out.findings.len() > 200 {
+                    out.findings.truncate(200);
+                }
+            }
+            let _ = tx.send(out);
+        }));
+    }
+    drop(tx);
+    for o in rx {
+        for _ in 0..o.evals {
+            rep.eval();
+        }
+        for d in o.distinct {
+            rep.distinct(&d);
+        }
+        rep.count("broadcasts", o.broadcasts);
+        rep.count("results_checked", o.results_checked);
+        rep.count("node_side_requests_matched", o.node_requests);
+        rep.count("passes_with_a_node_down", o.down_node_cases);
+        for (sig, detail, sc) in o.findings {
+            rep.violation(sig, detail, sc);
+        }
+        for i in o.inconclusive {
+            rep.inconclusive(i);
+        }
+    }
+    for h in handles {
+        let _ = h.join();
+    }
+    repe::verif_hooks::set_probe(None);
+    let configs_done = next.load(Ordering::Relaxed).min(total) as u64;
+    rep.set("fleet_configs_planned", json!(total));
+    rep.set("fleet_configs_started", json!(configs_done));
+    rep.set("probe_hits_on_broadcast_threads", json!(PROBE_OUTSIDE.load(Ordering::Relaxed)));
+    let complete = Instant::now() <= deadline;
+    rep.exhaustive = Some(complete);
+    rep.set("space", json!(format!("{space} x {{Fleet, AsyncFleet}} x {{broadcast_json, map_reduce_json}} alternating")));
+    if !complete {
+        rep.inconclusive("stopped at the wall-clock budget before all tag configurations ran");
+    }
+    if rep.evaluations == 0 {
+        rep.inconclusive("no broadcast ran");
+    }
+    rep
+}
 
 pub fn run(args: &Args) -> Report {
-    let mut rep = Report::new(args, "c19-stub", "stub");
-    rep.inconclusive("check not implemented");
-    rep
+    if args.stage.starts_with("tags") {
+        run_tags(args)
+    } else {
+        run_retry(args)
+    }
 }
